@@ -103,6 +103,9 @@ func keyEq(kt types.Type, a, b value) bool {
 		}
 		return r.(bool)
 	}
+	if hasSymDeep(a, 4) || hasSymDeep(b, 4) {
+		return decide(valEqTerm(a, b))
+	}
 	return equals(kt, a, b)
 }
 
